@@ -3,6 +3,8 @@ import VlsModel.Gen.HmacFn
 import VlsModel.Gen.FnPersistMod
 import VlsModel.Gen.FnHmacRs
 import VlsModel.Gen.FnLssUtil
+import VlsModel.Gen.FnLssFront
+import VlsModel.Gen.FnVlsdStore
 import VlsModel.Lemmas.FnGen
 /-
 C17 — the hand-written HMAC-input model (`Model/Hmac.lean`: `encRec`, `encShared`, `sharedTag`, `valueTag`, `Helper`,
@@ -635,5 +637,83 @@ theorem C17_fn_rs_lss_process_value_from_get (sb : String → List Nat) (mac : M
 example : FnHmacRs.compute_shared_hmac (fun _ => [97]) (fun e => e.key ++ e.msg) [1] [2] [("a", (4, [5]))]
     = [1, 1, 2, 97, 0, 0, 0, 0, 0, 0, 0, 4, 5] := by
   simp [FnHmacRs.compute_shared_hmac, FnHmacRs.add_to_hmac, Rs.toBeBytes, List.range, List.range.loop]
+
+/-! ### vls-frontend (`external_persist/lss.rs`): the whole of `Client::put` / `Client::get`
+
+The async glue between the signer's `Mutations` and the LSS client, translated by rs2lean after the declared
+normalisations (`.await` = run to completion, the tokio guard = the protected value; the transport `LssClient::put/get`
+are the externals `cput` / `cget`, quantified over).  So far only the two conversion closures were generated
+(`C17_fn_frontend_put_conv/_get_conv`, byte-assembly translator). -/
+
+/-- `(k, (version, value)) ↦ (k, Value { version: version as i64, value })` -/
+def putConv (r : String × (Nat × List Nat)) : String × FnLssFront.Value :=
+  (r.1, { version := Rs.itrunc 64 (r.2.1 : Int), value := r.2.2 })
+
+/-- `(k, v) ↦ (k, (v.version as u64, v.value))` -/
+def getConv (e : String × FnLssFront.Value) : String × (Nat × List Nat) :=
+  (e.1, (Rs.utruncI Rs.U64_MAX e.2.version, e.2.value))
+
+/-- `put`: exactly the converted list — same keys, same values, same order, the version as the `i64` with the same bit
+    pattern — is sent together with exactly the caller's tag; the server's answer is returned unchanged -/
+theorem C17_fn_rs_frontend_put {C : Type} (cput : C → List (String × FnLssFront.Value) → List Nat → Rs.M (List Nat))
+    (self : FnLssFront.Client C) (muts : List (String × (Nat × List Nat))) (tag : List Nat) :
+    FnLssFront.Client.put cput self muts tag = cput self.client (muts.map putConv) tag := by
+  simp only [FnLssFront.Client.put, bind_pure]
+  congr 2
+
+/-- `get`: the request carries exactly the caller's prefix and **nonce**; the reply's records are converted entry by entry
+    in order (`Mutations::from_vec` is the identity: nothing is sorted, dropped or merged before the caller's `check_hmac`)
+    and the received tag is handed on unchanged; a transport error stays an error -/
+theorem C17_fn_rs_frontend_get {C : Type}
+    (cget : C → String → List Nat → Rs.M (List (String × FnLssFront.Value) × List Nat))
+    (self : FnLssFront.Client C) (pfx : String) (nonce : List Nat) :
+    FnLssFront.Client.get cget self pfx nonce
+      = (cget self.client pfx nonce).map (fun r => (r.1.map getConv, r.2)) := by
+  simp only [FnLssFront.Client.get, FnLssFront.Mutations.from_vec]
+  cases cget self.client pfx nonce with
+  | error e => rfl
+  | ok r =>
+    obtain ⟨kvs, h⟩ := r
+    simp only [bind, Except.bind, pure, Except.pure, Except.map]
+    congr 3
+
+/-- what the signer wrote comes back unchanged through both conversions (key, version and value) -/
+theorem C17_fn_rs_frontend_roundtrip (r : String × (Nat × List Nat)) (hv : r.2.1 ≤ 18446744073709551615) :
+    getConv (putConv r) = r := by
+  obtain ⟨k, v, x⟩ := r
+  have := verOf_itrunc v hv
+  simp only [verOf, Int.ofNat_eq_natCast] at this
+  simp only [getConv, putConv, this]
+
+/-- and the converted record is, read as a model record (the `u64` with the same bit pattern), the signer's record:
+    the LSS-side tag functions see the same `key ‖ be64(version) ‖ value` -/
+theorem C17_fn_rs_frontend_put_rel (sb : String → List Nat) (r : String × (Nat × List Nat)) (m : KVRec)
+    (h : RecRel sb r m) (hv : r.2.1 ≤ 18446744073709551615) :
+    sb (putConv r).1 = nb m.key ∧ verOf (putConv r).2.version = m.ver ∧ (putConv r).2.value = nb m.val := by
+  obtain ⟨k, v, x⟩ := r
+  obtain ⟨h1, h2, h3⟩ := h
+  have := verOf_itrunc v hv
+  simp only [Int.ofNat_eq_natCast] at this
+  exact ⟨h1, by simpa [putConv, this] using h2, h3⟩
+
+example : (FnLssFront.Client.get (fun (_ : Unit) _ n => .ok ([("k", ⟨-1, [7]⟩)], n)) ⟨()⟩ "" [9])
+    = .ok ([("k", (18446744073709551615, [7]))], [9]) := by
+  rw [C17_fn_rs_frontend_get]; simp [Except.map, getConv, Rs.utruncI, Rs.U64_MAX]
+
+/-! ### vlsd (`grpc/signer.rs`): `store_with_client`, the write path of the signer daemon -/
+
+/-- a non-empty mutation list is sent together with `client_hmac` over **exactly that list** (the helper's method is the
+    external `chm`, tied above as `C17_fn_rs_client_hmac`); nothing is sent for an empty list; the server's
+    acknowledgement tag (the `Ok` value of `put`) is discarded by the code itself; a transport error is the result -/
+theorem C17_fn_rs_store_with_client {P : Type} (chm : FnVlsdStore.ExternalPersistHelper → List (String × (Nat × List Nat)) → List Nat)
+    (put : P → List (String × (Nat × List Nat)) → List Nat → Rs.M (List Nat))
+    (muts : List (String × (Nat × List Nat))) (client : P) (helper : FnVlsdStore.ExternalPersistHelper) :
+    FnVlsdStore.store_with_client chm put muts client helper
+      = if muts.isEmpty then .ok () else (put client muts (chm helper muts)).map (fun _ => ()) := by
+  unfold FnVlsdStore.store_with_client
+  cases hm : muts.isEmpty with
+  | true => simp [bind, Except.bind, pure, Except.pure]
+  | false =>
+    cases hp : put client muts (chm helper muts) <;> simp [hp, bind, Except.bind, pure, Except.pure, Except.map]
 
 end VlsModel.Props.C17Fn
